@@ -60,7 +60,8 @@ pub fn gen_zone(r: &mut StdRng, apex: &str, class: u16, children: &[&str], o: Zo
         owners.push(c.to_string());
         owners.push(format!("ns.{}", c));
     }
-    let out_of_zone = ["ns.elsewhere.", "mail.other."];
+    // (the root and a top-level name: targets with fewer labels than most apexes - null MX, CNAME to a parent domain)
+    let out_of_zone = ["ns.elsewhere.", "mail.other.", ".", "test.", "ns.elsewhere.", "mail.other."];
     let mut recs: Vec<Rec> = Vec::new();
     let sub = |l: &str| -> String { if apex == "." { format!("{}.", l) } else { format!("{}.{}", l, apex) } };
     let has_soa = !o.weird || r.gen_bool(0.6);
@@ -202,11 +203,24 @@ pub fn gen_zone(r: &mut StdRng, apex: &str, class: u16, children: &[&str], o: Zo
                 recs.push(Rec { owner: nsn, ty: 28, ttl: 900, rdata: (0..16).map(|j| (i * 16 + j) as u8).collect() });
             }
         }
+        // a delegation whose name server is the delegation owner itself, with many addresses at the cut (mandatory glue
+        // that alone overflows 512 octets)
+        let selfns = sub("selfns");
+        recs.push(Rec { owner: selfns.clone(), ty: 2, ttl: 900, rdata: w(&selfns) });
+        for i in 0..r.gen_range(2..40u8) {
+            recs.push(Rec { owner: selfns.clone(), ty: 1, ttl: 900, rdata: if class == 3 { let mut v = w("lan.chaos."); v.extend_from_slice(&[0, i]); v } else { vec![203, 0, 114, i] } });
+        }
         // a long name with data
         let long = sub(&format!("{}.{}.{}", "x".repeat(60), "y".repeat(60), "z".repeat(50)));
         if long.len() < 250 {
             for i in 0..r.gen_range(1..12u8) { recs.push(Rec { owner: long.clone(), ty: 1, ttl: 5, rdata: if class == 3 { addr_rdata(r, 3) } else { vec![10, 9, 8, i] } }); }
         }
+    }
+    if o.weird && class != 1 {
+        // SRV-shaped and too short SRV RDATA outside class IN (there the type is opaque to the RDATA layer)
+        let srv = sub("srv");
+        recs.push(Rec { owner: srv.clone(), ty: 33, ttl: 42, rdata: (0..r.gen_range(0..6)).map(|_| r.gen()).collect() });
+        if r.gen_bool(0.5) { recs.push(Rec { owner: srv, ty: 15, ttl: 42, rdata: vec![0] }); }
     }
     if o.weird {
         // malformed RDATA for known types (the zone API accepts any octets)
@@ -270,6 +284,14 @@ pub fn gen_catalog(r: &mut StdRng, o: ZoneOpts, multi_class: bool) -> GenCat {
     let pend_class = if multi_class { *[1u16, 3].choose(r).unwrap() } else { 1 };
     cat.insert(Entry::NotYetLoaded(nm("pending.test."), Class::from(pend_class), ()));
     cfg.push(json!({"name": w("pending.test."), "class": pend_class, "state": "notloaded", "records": []}));
+    // entries whose names contain the letters at the ends of the alphabet (queried in random case)
+    if r.gen_bool(0.6) {
+        cat.insert(Entry::NotYetLoaded(nm("zone.quiz.test."), Class::IN, ()));
+        cfg.push(json!({"name": w("zone.quiz.test."), "class": 1, "state": "notloaded", "records": []}));
+        cat.insert(Entry::FailedToLoad(nm("AZ.test."), Class::IN, ()));
+        cfg.push(json!({"name": w("AZ.test."), "class": 1, "state": "failed", "records": []}));
+        names.extend(["zone.quiz.test.", "quiz.test.", "x.zone.quiz.test.", "az.test.", "a.az.test."].iter().map(|s| s.to_string()));
+    }
     if r.gen_bool(0.5) {
         cat.insert(Entry::FailedToLoad(nm("failed.example.test."), Class::IN, ()));
         cfg.push(json!({"name": w("failed.example.test."), "class": 1, "state": "failed", "records": []}));
